@@ -172,7 +172,7 @@ func c08Sizes(tier string) (truncP, truncT, flipP, flipT, cross, rderr, ill int)
 
 func (c08) NumCases(tier string) int {
 	a, b, c, d, e, f, g := c08Sizes(tier)
-	return a + b + c + d + e + f + g + c08OpFaultWorlds(tier) + c08IllCrossN() + c08ScaleN() + c08TwoChangeN() + c08BulkN() + c08TreeWorlds(tier)
+	return a + b + c + d + e + f + g + c08OpFaultWorlds(tier) + c08IllCrossN() + c08ScaleN() + c08TwoChangeN() + c08BulkN() + c08CLIFormsN() + c08TreeWorlds(tier)
 }
 
 func c08TreeWorlds(tier string) int {
@@ -196,7 +196,7 @@ func (c08) Describe() CheckInfo {
 		},
 		RealCode:       []string{"gopatch main(), loader, internal/parse (section splitter, meta parser), internal/pgo (augmenter), internal/engine, patch.Parse/File.Apply"},
 		Stubs:          []string{"package os (patch delivered through simulated files and a chunked simulated stdin)", "path/filepath walk", "io/ioutil"},
-		RequiredProbes: []string{"trunc-patch", "trunc-target", "flip-patch", "flip-target", "cross", "read-error-fired", "ill-typed", "op-fault", "ill-cross", "scale", "two-change", "bulk", "bulk-memory-measured", "patch-list-layouts", "tree", "tree-symlink-cycle", "patch-rejected", "patch-accepted", "stdin-short-reads", "api-parse", "api-apply"},
+		RequiredProbes: []string{"trunc-patch", "trunc-target", "flip-patch", "flip-target", "cross", "read-error-fired", "ill-typed", "op-fault", "ill-cross", "scale", "two-change", "bulk", "bulk-memory-measured", "patch-list-layouts", "cli-forms", "tree", "tree-symlink-cycle", "patch-rejected", "patch-accepted", "stdin-short-reads", "api-parse", "api-apply"},
 	}
 }
 
@@ -335,10 +335,46 @@ func (c08) Gen(env *Env, seed uint64, tier string, i int) *Case {
 			inputs = []CorpusFile{{Name: "t.go", Data: src}}
 			c.Extra["what"] = nm
 			c.Extra["key"] = nm
+		case j < c08IllCrossN()+c08ScaleN()+c08TwoChangeN()+c08BulkN()+c08CLIFormsN():
+			// the option parser's edges: no arguments, --version, help, missing values,
+			// unknown flags, "--", empty strings, a directory as patch
+			k := j - c08IllCrossN() - c08ScaleN() - c08TwoChangeN() - c08BulkN()
+			form := c08CLIForms[k%len(c08CLIForms)]
+			c.Sub = "cli-forms"
+			c.AddPatch("p0.patch", "p", []byte("@@\nvar x expression\n@@\n-foo(x)\n+bar(x)\n"), nil, nil)
+			c.AddFile("t.go", []byte("package sample\n\nfunc f() {\n\tfoo(1)\n}\n"), "input", nil, "")
+			var args []string
+			for _, a := range form {
+				switch a {
+				case "P":
+					a = PatDir + "/p0.patch"
+				case "F":
+					a = "t.go"
+				case "D":
+					a = ProjDir
+				case "-p=P":
+					a = "-p=" + PatDir + "/p0.patch"
+				case "--patch=P":
+					a = "--patch=" + PatDir + "/p0.patch"
+				}
+				args = append(args, a)
+			}
+			c.Spec.Args = args
+			switch k / len(c08CLIForms) {
+			case 1:
+				c.Spec.Stdin = []byte("@@\n@@\n-foo\n+baz\n")
+			case 2:
+				c.Spec.Stdin = []byte("not a patch at all")
+				c.Spec.Knobs.StdinChunk = -3
+			}
+			c.Extra["what"] = fmt.Sprintf("argument vector %q", form)
+			c.Extra["key"] = fmt.Sprint(k)
+			c.Extra["fixed_args"] = "1"
+			return c
 		default:
 			// directory trees with symlinks of every kind (also cyclic), fifos, odd
 			// names: enumeration must terminate and must not crash
-			t := Lookup("C15").Gen(env, seed, tier, j-c08IllCrossN()-c08ScaleN()-c08TwoChangeN()-c08BulkN())
+			t := Lookup("C15").Gen(env, seed, tier, j-c08IllCrossN()-c08ScaleN()-c08TwoChangeN()-c08BulkN()-c08CLIFormsN())
 			t.Prop, t.Sub = "C08", "tree"
 			t.Idx = i
 			t.Extra["what"] = "generated directory tree"
